@@ -231,3 +231,42 @@ def result_sx(fn, enc):
     except Exception as e:  # noqa: BLE001
         return tag("err", Sym(exn_name(e)))
     return tag("ok", enc(v))
+
+
+# ---------------------------------------------------------------------- in-place edits of a live model
+def retarget(fm, b):
+    """turn the live model fm (built from a spec of the same tree shape as b) into b through public attributes /
+    setters: names, cardinalities, abstract flags, constraints"""
+    from flamapy.core.models.ast import AST
+
+    def walk(feat, sb):
+        feat.name = sb["name"]
+        feat.is_abstract = sb["abstract"]
+        for rel, rb in zip(feat.relations, sb["rels"]):
+            rel.card_min, rel.card_max = rb["min"], rb["max"]
+            for ch, cb in zip(rel.children, rb["children"]):
+                walk(ch, cb)
+    walk(fm.root, b["root"])
+    for c, (name, node) in zip(fm.ctcs, b["ctcs"]):
+        c.name = name
+        c.ast = AST(build_node(node))
+
+
+def same_shape_variant(m, rng):
+    """a spec with the same tree shape and the same number of constraints as m, with other cardinalities (the kind of
+    a relation changes: mandatory <-> optional, group bounds) and other constraint formulas"""
+    import copy
+    b = copy.deepcopy(m)
+    for f in spec_features(b["root"]):
+        for r in f["rels"]:
+            k = len(r["children"])
+            if k == 1:
+                r["min"], r["max"] = rng.choice([(1, 1), (0, 1)])
+            else:
+                lo = rng.randint(0, k)
+                r["min"], r["max"] = lo, rng.randint(max(lo, 1), k)
+    names = [f["name"] for f in spec_features(b["root"])]
+    for i, (nm, node) in enumerate(b["ctcs"]):
+        a, c = rng.choice(names), rng.choice(names)
+        b["ctcs"][i] = (nm, OP(rng.choice(["IMPLIES", "EXCLUDES", "OR"]), T(a), T(c)))
+    return b
